@@ -741,7 +741,7 @@ class Bubble(Box):
         return "Bubble({}{})".format(
             repr(self.inside),
             "" if (self.dom, self.cod) == (self.inside.dom, self.inside.cod)
-            else ", dom={}, cod={})".format(repr(self.dom), repr(self.cod)))
+            else ", dom={}, cod={}".format(repr(self.dom), repr(self.cod)))
 
 
 Arrow.sum = Sum
